@@ -80,6 +80,14 @@ def enc_info_in(ti):
     return f"{ti['s']},{ti['e']},1,{hx(ti['text'])},{tok}"
 
 
+def enc_info_lex(ti):
+    """lexed token info (harness `lex`) -> the encoding the driver's `lextext` prints (field tokens included)"""
+    tok = "-" if ti["tok"] is None else enc_tok(ti["tok"])
+    if tok is None:
+        return None
+    return f"{ti['s']},{ti['e']},1,{hx(ti['text'])},{tok}"
+
+
 def enc_info_out(ti):
     """calculated token info (harness exec detail) -> the encoding the driver prints"""
     tok = "-" if ti["tok"] is None else enc_tok(ti["tok"])
@@ -143,7 +151,7 @@ class Corr:
     def __init__(self, ctx, compare=("kind", "value", "out", "calc", "raw")):
         self.ctx = ctx
         self.compare = compare
-        self.stats = {"lines": 0, "agree": 0, "unsupported": 0, "skipped_abnormal": 0}
+        self.stats = {"lines": 0, "agree": 0, "unsupported": 0, "skipped_abnormal": 0, "lex_lines": 0, "lex_agree": 0, "lex_unsupported": 0}
 
     def run(self, cases):
         """cases: list of dict(cfg=[harness cfg ops], lang, text).  cfg ops are applied before
@@ -153,6 +161,7 @@ class Corr:
                    {"op": "tz", "v": "UTC"}]
         ops = [{"op": "now"}]
         layout = []
+        lines_of = []
         for c in cases:
             cfg = c.get("cfg", [])
             start = len(ops)
@@ -160,6 +169,7 @@ class Corr:
             ops.append({"op": "get_tz"})
             ops.append({"op": "exec", "lang": c["lang"], "text": c["text"], "detail": True})
             lines = split_lines(c["text"])
+            lines_of.append(lines)
             for ln in lines:
                 ops.append({"op": "lex", "lang": c["lang"], "text": ln})
             if c.get("reset_after"):
@@ -211,6 +221,9 @@ class Corr:
                     parts = [enc_info_in(t) for t in lx["toks"]]
                     if all(p is not None for p in parts):
                         enc = " ".join(parts)
+                # the model's own tokenizers on the raw text of the line (compared with the implementation's tokens)
+                req.append("lextext\t" + c["lang"] + "\t" + hx(lines_of[ci][li]))
+                req_index.append(("lex", ci, li))
                 if enc is None:
                     req.append("line\t" + c["lang"] + "\tunsupported,")
                 else:
@@ -221,9 +234,34 @@ class Corr:
                 req_index.append(None)
         ans = C.run_model(req)[2:]
         model = {}
+        lexm = {}
         for idx, a in zip(req_index, ans):
-            if idx is not None:
+            if idx is None:
+                continue
+            if idx[0] == "lex":
+                lexm[idx[1:]] = a
+            else:
                 model[idx] = model_line_canon(a)
+        # ---- lexer tie: model tokens of the raw text vs the implementation's tokens ------------------
+        for ci, (c, (start, ncfg, nlines)) in enumerate(zip(cases, layout)):
+            for li in range(nlines):
+                lx = res[start + ncfg + 2 + li]
+                a = lexm.get((ci, li))
+                if a is None or "toks" not in lx:
+                    continue
+                self.stats["lex_lines"] += 1
+                parts = [enc_info_lex(t) for t in lx["toks"]]
+                if a == "unsupported" or any(p is None for p in parts) or not a.startswith("toks"):
+                    self.stats["lex_unsupported"] += 1
+                    continue
+                want = " ".join(parts)
+                got = a[5:] if a.startswith("toks\t") else ""
+                if want != got:
+                    self.ctx.disagree({"lang": c["lang"], "cfg": c.get("cfg", []), "text": lines_of[ci][li], "observable": "lexer tokens",
+                                       "impl": want, "model": got})
+                else:
+                    self.stats["lex_agree"] += 1
+                    self.ctx.traces_validated += 1
         out = []
         for ci, (c, (start, ncfg, nlines)) in enumerate(zip(cases, layout)):
             ex = res[start + ncfg + 1]
@@ -266,3 +304,59 @@ class Corr:
         if "raw" in self.compare and il[4] is not None and il[4] != ml[4]:
             return "raw"
         return None
+
+
+def lex_tie(ctx, cases, label="lex-tie"):
+    """cases: list of (cfg ops, lang, line text).  The model's own tokenizers (`lexText`: language, regex and alias
+    tokenizers over the regenerated regular expressions) against the implementation's `Tokinizer::token_infos`,
+    token info for token info (byte span, original text, token)."""
+    DEFAULT = [{"op": "cfg", "dec": ",", "thou": "."}, {"op": "tz", "v": "UTC"}]
+    ops = [{"op": "now"}]
+    pos = []
+    for cfg, lang, t in cases:
+        ops.extend(cfg)
+        ops.append({"op": "get_tz"})
+        pos.append(len(ops))
+        ops.append({"op": "lex", "lang": lang, "text": t})
+        if cfg:
+            ops.extend(DEFAULT)
+    ops.append({"op": "now"})
+    res = C.run_impl(ops)
+    if res[0].get("ymd") != res[-1].get("ymd"):
+        res = C.run_impl(ops)
+    req = [f"now\t{res[0]['secs']}", "reset"]
+    idx = []
+    for (cfg, lang, t), p in zip(cases, pos):
+        dec, thou = ",", "."
+        for op in cfg:
+            if op["op"] == "cfg":
+                dec, thou = op.get("dec", dec), op.get("thou", thou)
+        tz = res[p - 1].get("tz", ["UTC", 0])
+        req.append(f"cfg_sep\t{hx(dec)}\t{hx(thou)}")
+        idx.append(None)
+        req.append(f"cfg_tz\t{hx(tz[0])}\t{tz[1]}")
+        idx.append(None)
+        req.append("lextext\t" + lang + "\t" + hx(t))
+        idx.append(len(idx))
+    ans = C.run_model(req)[2:]
+    k = 0
+    for a, i in zip(ans, idx):
+        if i is None:
+            continue
+        (cfg, lang, t), p = cases[k], pos[k]
+        k += 1
+        lx = res[p]
+        ctx.count(label + ":lines")
+        if "toks" not in lx:
+            ctx.count(label + ":impl-abnormal")
+            continue
+        parts = [enc_info_lex(x) for x in lx["toks"]]
+        if a == "unsupported" or any(q is None for q in parts) or not a.startswith("toks"):
+            ctx.count(label + ":outside-model")
+            continue
+        want, got = " ".join(parts), (a[5:] if a.startswith("toks\t") else "")
+        if want != got:
+            ctx.disagree({"lang": lang, "cfg": cfg, "text": t, "observable": "lexer tokens", "impl": want, "model": got})
+        else:
+            ctx.count(label + ":agree")
+            ctx.traces_validated += 1
